@@ -809,55 +809,7 @@ func r13ip(c *core.Ctx) {
 		return
 	}
 	c.Analysed(core.FuncName(fn))
-	p := core.NewPather(fn)
-	to4 := "call:net.IP.To4(call:net.ParseIP(p0))"
-	want := "[" + to4 + "[0]," + to4 + "[1]," + to4 + "[2]," + to4 + "[3]]"
-	found := false
-	why := "no branch stores a 32-bit address"
-	for _, b := range fn.Blocks {
-		var bytesOK, lenOK, stored bool
-		for _, in := range b.Instrs {
-			st, ok := in.(*ssa.Store)
-			if !ok {
-				continue
-			}
-			ap, vp := p.Path(st.Addr), p.Path(st.Val)
-			if k, isK := core.ConstInt(st.Val); isK && strings.HasSuffix(ap, ".BitLength") && k == 32 {
-				lenOK = true
-			}
-			if strings.HasSuffix(ap, ".Bytes") && vp == want {
-				bytesOK = true
-			}
-			if strings.HasSuffix(ap, ".Value") && strings.HasPrefix(vp, "local:*aper.BitString") {
-				stored = true
-			}
-		}
-		if !lenOK {
-			continue
-		}
-		if !bytesOK {
-			why = "the 32-bit branch does not store ParseIP(ipv4).To4()[0..3] in order"
-			continue
-		}
-		if !stored {
-			why = "the 32-bit bit string is not stored in the result"
-			continue
-		}
-		// guarded by ipv6Addr == ""
-		okGuard := false
-		if len(b.Preds) == 1 {
-			if iff, ok := b.Preds[0].Instrs[len(b.Preds[0].Instrs)-1].(*ssa.If); ok {
-				cp := p.Path(iff.Cond)
-				okGuard = (cp == "(p1==\"\")" && b.Preds[0].Succs[0] == b) || (cp == "(p1!=\"\")" && b.Preds[0].Succs[1] == b)
-			}
-		}
-		if !okGuard {
-			why = "the 32-bit branch is not the one taken for ipv6Addr == \"\""
-			continue
-		}
-		found = true
-	}
-	c.Check(found, R, "ngapConvert.IPAddressToNgap:ipv4-only", fn.Pos(), "Bytes = ParseIP(ipv4).To4()[0..3], BitLength 32 when ipv6Addr == \"\"", "IPAddressToNgap(ipv4, \"\") must yield exactly the four octets of the address with bit length 32: %s", why)
+	r13ipX(c, R)
 }
 
 func lastSegments(path string, n int) string {
